@@ -369,7 +369,7 @@ func checkC11(p *Prog, r *Report) {
 			if c, ok := n.(*ast.CallExpr); ok {
 				switch p.CalleeName(c) {
 				case "ice.Agent.setGatheringState":
-					seq = append(seq, "state:"+strings.TrimPrefix(p.constName(c.Args[1]), "GatheringState"))
+					seq = append(seq, "state:"+strings.TrimPrefix(p.constName(p.argOfType(f, c, "ice.GatheringState")), "GatheringState"))
 				case "ice.Agent.gatherCandidatesInternal":
 					if async[c] {
 						seq = append(seq, "gather(async)")
